@@ -33,6 +33,9 @@ checks = {
  "C20": dict(level="model_checking", ref="§C20", tech="stateless model checking of the real pkg/api context code under the instrumented cooperative scheduler; all op-words<=2 per client thread x deviation-bounded schedules; interval invariants on a ground-truth event log",
    text="224 harnesses (every pair of words of <=2 operations over {Rebuild, Cancel, Dispose, Edit} for 2 client threads, 3 single-operation threads, injected failures of each callback kind) run against one real build context whose modules come from plugin callbacks; all schedules within the deviation bound (quick 1, thorough 2) at choice points in pkg/api, config, helpers and the callbacks, two default policies; invariants: no deadlock/panic, every Rebuild returns empty-after-dispose / cancelled / exactly one build's result (no mixture, equals what that build's end callback saw, not stale, reflects earlier edits when started after the call), Cancel/Dispose return only after the active build ended, nothing runs after Dispose returned, start callbacks finish before resolve/load, each module loaded once per build, end callbacks once",
    note="sequentially consistent scheduler; Serve over sockets, Watch polling and the stdio service loop (cmd/esbuild) are not part of the explored harnesses yet; the first schedule of every harness is replayed to validate determinism"),
+ "C10": dict(level=EXPL, ref="§C10", tech="bounded-exhaustive enumeration of entry/shared-module incidence matrices x all subsets and orders of entry points, differential execution against native multi-entry loading + static chunk-graph checks",
+   text="k in {2,3} entries x m<=3 shared modules x every incidence matrix over {none, static, dynamic, re-export, side-effect import} (strided in quick), shared chains, entry-as-dependency; splitting builds (default/minify/name templates) are written out and every non-empty subset and order of entry points is loaded into one realm and compared per module with native loading of the sources in the same order; chunk import graph must be acyclic and closed",
+   note="Node 20 native ESM is the reference; cross-module order of top-level code not compared (documented); public-path builds not executed"),
  "C13": dict(level=EXPL, ref="§C13", tech="bounded-exhaustive enumeration of token words (small-scope model checking of the lexer/parser/printer state machine) with V8 as reference grammar",
    text="all token words up to length 3 (thorough 4) over a 100+ token context-sensitive alphabet; each word is run through the real esbuild and decided against V8 (accept/reject agreement, output validity per goal under 5 configurations, fixed point T(T(x))==T(x))",
    note="V8 of Node 20 is the reference grammar; inputs V8 rejects are outside the quantifier"),
